@@ -61,6 +61,14 @@ log = logging.getLogger(__name__)
 MAX_CID = 65535
 
 
+def _is_metric(x: object) -> bool:
+    """A number that glyph arithmetic can use (an integer of hundreds of
+    digits overflows the float operations)."""
+    return isinstance(x, (int, float)) and not (
+        isinstance(x, int) and x.bit_length() > 1000
+    )
+
+
 def get_widths(seq: Iterable[object]) -> Dict[Union[str, int], float]:
     """Build a mapping of character widths for horizontal writing."""
     widths: Dict[int, float] = {}
@@ -102,7 +110,7 @@ def get_widths2(seq: Iterable[object]) -> Dict[int, Tuple[float, Point]]:
             if r:
                 char1 = r[-1]
                 for i, (w, vx, vy) in enumerate(choplist(3, resolve_all(v))):
-                    if not all(isinstance(x, (int, float)) for x in (w, vx, vy)):
+                    if not all(_is_metric(x) for x in (w, vx, vy)):
                         log.warning(
                             f"Skipping invalid vertical font metrics {(w, vx, vy)!r} because not all of them are numbers"
                         )
@@ -113,7 +121,9 @@ def get_widths2(seq: Iterable[object]) -> Dict[int, Tuple[float, Point]]:
             r.append(v)
             if len(r) == 5:
                 (char1, char2, w, vx, vy) = r
-                if isinstance(char1, int) and isinstance(char2, int):
+                if not all(_is_metric(x) for x in (w, vx, vy)):
+                    log.warning("Skipping vertical font metrics that are not usable numbers")
+                elif isinstance(char1, int) and isinstance(char2, int):
                     for i in range(max(char1, 0), min(char2, MAX_CID) + 1):
                         widths[i] = (w, (vx, vy))
                 else:
@@ -1243,7 +1253,7 @@ class PDFCIDFont(PDFFont):
         if "DW2" not in spec:
             return default
         dw2 = [resolve1(v) for v in list_value(spec["DW2"])]
-        if len(dw2) != 2 or not all(isinstance(v, (int, float)) for v in dw2):
+        if len(dw2) != 2 or not all(_is_metric(v) for v in dw2):
             log.warning(
                 f"Could not get DW2 from font because {dw2!r} is not a pair of numbers"
             )
